@@ -66,6 +66,20 @@ pub broadcast proof fn lemma_strip_concat(s: Seq<char>, a: Seq<char>, b: Seq<cha
     }
 }
 
+/// the order of paths (`Ord for PathBuf`: component-wise comparison, an oracle here; total, see `ax_path_total`)
+pub uninterp spec fn path_le(a: &std::path::PathBuf, b: &std::path::PathBuf) -> bool;
+pub open spec fn sorted_asc(s: Seq<std::path::PathBuf>) -> bool { forall|i: int, j: int| 0 <= i <= j < s.len() ==> path_le(&#[trigger] s[i], &#[trigger] s[j]) }
+/// `<[PathBuf]>::sort_unstable()`: an ascending permutation (trusted, like the `sort_by` specification of unit `spec`)
+#[verifier::external_body]
+pub fn vsort_unstable(v: &mut Vec<std::path::PathBuf>)
+    ensures sorted_asc(final(v)@), final(v)@.to_multiset() == old(v)@.to_multiset()
+{ v.sort_unstable() }
+/// `<[T]>::reverse()`
+#[verifier::external_body]
+pub fn vreverse(v: &mut Vec<std::path::PathBuf>)
+    ensures final(v)@ == old(v)@.reverse(), final(v)@.to_multiset() == old(v)@.to_multiset()
+{ v.reverse() }
+
 pub mod infix_filter {
     use super::*;
     //@ opaque src/writers/file_log_writer/infix_filter.rs enum InfixFilter
@@ -156,6 +170,21 @@ pub mod file_spec {
     //@ span src/parameters/file_spec.rs impl FileSpec / fn read_dir_related_files
     //@   blocknth 1/1 .filter(|path|
     //@   rename name_has_fixed_part
+
+    /// the last two statements of read_dir_related_files: the listing is handed on in DESCENDING path order ("newest first" for names
+    /// whose order is their age: zero-padded numbers, year-first time stamps - premise A5 / finding F10), nothing added, nothing lost
+    pub(crate) fn sort_newest_first(log_files_in: Vec<PathBuf>) -> (r: Vec<PathBuf>)
+        ensures
+            forall|i: int, j: int| 0 <= i <= j < r@.len() ==> path_le(&#[trigger] r@[j], &#[trigger] r@[i]), //@label read_dir_related_files.order.post C07,C06,C16
+            r@.to_multiset() == log_files_in@.to_multiset(), //@label read_dir_related_files.order.permutation C07,C14
+        {
+            let mut log_files = log_files_in;
+    //@ span src/parameters/file_spec.rs impl FileSpec / fn read_dir_related_files
+    //@   from log_files.
+    //@   toend
+    //@   rename sort_newest_first
+    //@   rule R45 *
+        }
 
     /// first filter closure of filter_files: the configured suffix
     pub(crate) fn suffix_matches(path: &&PathBuf, o_suffix: Option<&str>) -> (r: bool)
